@@ -184,10 +184,6 @@ def run(ctx, anchors=None):
     ver_twin = ver_twin[0]
 
     from . import common as _cm
-    _cm.require_names(ctor, ["m_k", "m_p", "m_q", "control", "program", "script", "m_tapleaf_hash"], "R05.1")
-    _cm.require_names(it, ["m_k", "m_i", "m_path_len", "m_control", "node", "res", "m_q", "m_p"], "R05.1")
-    _cm.require_names(root_twin, ["k", "node", "control", "path_len", "i"], "R05.1")
-    _cm.require_names(ver_twin, ["p", "q", "control", "program", "merkle_root"], "R05.1")
     # ---- tagged hashers
     tags = {"HASHER_TAPLEAF": "TapLeaf", "HASHER_TAPBRANCH": "TapBranch", "HASHER_TAPTWEAK": "TapTweak", "HASHER_TAPSIGHASH": "TapSighash"}
     for name, tag in sorted(tags.items()):
@@ -200,82 +196,202 @@ def run(ctx, anchors=None):
             lits = [x["s"] for x in walk(v["init"]) if x["k"] == "str"] if v.get("init") else []
             ctx.inst(lits == [tag], "R05.1", "tag=%s@%s" % (name, v["file"]), "%s:%d" % (v["file"], v["line"]), "%s = TaggedHash(\"%s\")" % (name, tag),
                      "%s is initialised from %s; BIP341 uses the tag \"%s\"" % (name, lits, tag))
-    # ---- leaf stream
-    h_s, ops_s = None, []
-    for n in ctor.nodes():
-        if n["k"] == "opcall" and n["op"] == "=" and norm(astq.estr(n["args"][0])) == "k":
-            h_s, ops_s = stream_chain_ops(n["args"][1])
-    h_t, ops_t = stream_chain_ops(leaf_twin.body)
-    # substitute the twin's parameters by the arguments of its call in VerifyWitnessProgram
-    calls = [(f, n) for f in fb.funcs.values() for n in f.nodes() if n["k"] == "call" and n.get("cid") == leaf_twin.id]
-    sub = {}
-    if calls:
-        f, n = calls[0]
-        for p, a in zip(leaf_twin.params, n["args"]):
-            sub[p["n"]] = norm(astq.estr(a))
-    ops_t2 = [sub.get(o, o) for o in ops_t]
-    ops_t2 = [("script" if o in ("exec_script",) else o) for o in ops_t2]
-    ctx.site(2)
-    ctx.inst(h_s == h_t == "HASHER_TAPLEAF" and ops_s == ops_t2 and len(ops_s) == 2, "R05.1", "leaf-stream", ctor.loc(),
-             "leaf hash = %s over %s (twin: %s)" % (h_s, ops_s, ops_t2),
-             "step-wise leaf hash streams %s into %s; the batch twin streams %s into %s" % (ops_s, h_s, ops_t2, h_t))
-    want_leaf = ["(control[0] & TAPROOT_LEAF_MASK)", "script"]
-    ctx.inst(ops_t2 == want_leaf, "R05.1", "leaf-stream-spec", leaf_twin.loc(), "twin leaf stream is (leaf version byte, script) as in BIP341")
-    # ---- branch fold
-    fs, ft = branch_facts(it), branch_facts(root_twin)
-    # path_len of the step-wise side is set in the constructor
-    fs.update({k: v for k, v in branch_facts(ctor).items() if k == "path_len"})
+    # ---- R05.1 on terms (G-SYM): both implementations are mapped to Herbrand terms over the same atoms (parameters bound by
+    # position, session fields by their record names) and byte ranges are brought to slice(container, offset, length)
+    from .. import symx
+    from ..symx import C
+    need = ["m_control", "m_program", "m_script", "m_tapleaf_hash", "m_p", "m_q", "m_path_len", "m_k", "m_i"]
+    have = set(fb.record_fields("TaprootCommitmentEnv"))
+    if [x for x in need if x not in have]:
+        raise AnalysisBroken("R05.1: anchor name(s) %s not found in TaprootCommitmentEnv - renamed or restructured; update the anchor table" % [x for x in need if x not in have])
+    X = symx.Explorer(prog, inline=lambda fn, n: False, transparent=lambda n: True)
+    this = ("a", "this")
+    CONTROL, PROGRAM, SCRIPT, TLH, K, I_ = ("a", "control"), ("a", "program"), ("a", "script"), ("a", "tapleaf_hash"), ("a", "k"), ("a", "i")
+
+    def nslice(t):
+        """bottom-up: subspan / Span(data()+off, len) / vector(begin()+a, begin()+b) -> slice(container, offset, length)"""
+        if not isinstance(t, tuple):
+            return t
+        t = tuple(nslice(x) for x in t)
+        if t[0] == "ap" and t[1] == "{}" and len(t) == 3:
+            return t[2]
+        if t[0] == "ap" and t[1] == "m:subspan" and len(t) == 5:
+            base = t[2]
+            if isinstance(base, tuple) and base[0] == "slice":
+                return ("slice", base[1], symx.lin_add(base[2], t[3]), t[4])
+            return ("slice", base, t[3], t[4])
+        if t[0] == "ap" and t[1].startswith("ctor:") and len(t) == 4:
+            def split(x, acc):
+                c, d = symx.lin_parts(x)
+                hit = [k for k in d if isinstance(k, tuple) and k[0] == "ap" and k[1] == acc and len(k) == 3 and d[k] == 1]
+                if len(hit) != 1:
+                    return None, None
+                d = dict(d)
+                del d[hit[0]]
+                return hit[0][2], symx.mk_lin(c, d)
+            c0, off0 = split(t[2], "m:data")
+            if c0 is not None and "Span" in t[1]:
+                return ("slice", c0, off0, t[3])
+            b0, o0 = split(t[2], "m:begin")
+            b1, o1 = split(t[3], "m:begin")
+            if b0 is not None and b0 == b1:
+                return ("slice", b0, o0, symx.lin_add(o1, o0, -1))
+        return t
+
+    def explore(func, **kw):
+        try:
+            return X.explore(func, **kw)
+        except symx.Unsupported as e:
+            raise AnalysisBroken("R05.1: %s: %s" % (func.name, e))
+
+    def pbind(func, atoms):
+        if len(func.params) != len(atoms):
+            raise AnalysisBroken("R05.1: %s takes %d parameters, the rule was written for %d" % (func.name, len(func.params), len(atoms)))
+        return {p["n"]: a for p, a in zip(func.params, atoms)}
+
+    def lt_of(t):
+        if isinstance(t, tuple) and t[0] == "ap" and t[1] == "lexicographical_compare" and len(t) == 6:
+            ps = [x[2] if isinstance(x, tuple) and x[0] == "ap" and x[1] in ("m:begin", "m:end") and len(x) == 3 else None for x in t[2:]]
+            if None not in ps and ps[0] == ps[1] and ps[2] == ps[3]:
+                return ps[0], ps[2]
+        return None
+    # ---- step-wise side: constructor, then Iterate on the constructed object with symbolic k, i, path length
+    c_outs = [o for o in explore(ctor, this=this, params=pbind(ctor, [CONTROL, PROGRAM, SCRIPT, TLH])) if o.status in ("end", "ret")]
+    if not c_outs:
+        raise AnalysisBroken("R05.1: the TaprootCommitmentEnv constructor has no completing path")
+    step = {}
+    for o in c_outs:
+        for fld in ("m_control", "m_program", "m_script", "m_tapleaf_hash", "m_p", "m_q", "m_path_len", "m_k", "m_i"):
+            step.setdefault(fld, set()).add(nslice(o.field(this, fld)))
+    if any(len(v) != 1 for v in step.values()):
+        raise AnalysisBroken("R05.1: the constructor leaves %s path-dependent" % [k for k, v in step.items() if len(v) != 1])
+    step = {k: list(v)[0] for k, v in step.items()}
+    if step["m_control"] != CONTROL or step["m_program"] != PROGRAM or step["m_script"] != SCRIPT or step["m_tapleaf_hash"] != TLH:
+        raise AnalysisBroken("R05.1: the constructor does not store its arguments in m_control / m_program / m_script / m_tapleaf_hash")
+    heap = {(this, "m_k"): K, (this, "m_i"): I_, (this, "m_path_len"): ("a", "n"), (this, "m_control"): CONTROL, (this, "m_p"): ("a", "p"), (this, "m_q"): ("a", "q")}
+    i_outs = [o for o in explore(it, this=this, heap=heap) if o.status == "ret"]
+
+    def fold_facts(pairs, k_atom, hint):
+        """pairs: [(decided conditions, new k term)] of one fold step"""
+        out = {}
+        for conds, newk in pairs:
+            cmpc = [(lt_of(t), v) for (t, v) in conds if lt_of(t) is not None]
+            if not cmpc:
+                continue
+            (P, Q), v = cmpc[-1]
+            out["cmp"] = (symx.show(P), symx.show(Q))
+            node = Q if P == k_atom else P
+            out["slice"] = node
+            if isinstance(newk, tuple) and newk[0] == "ap" and newk[1].startswith("m:Get") and len(newk) == 3:
+                out["k_update"] = newk[1][2:]
+                base, ops = symx.unmut(newk[2])
+                out["hasher"] = symx.show(base)
+                seq = ["k" if op[1] == k_atom else ("node" if op[1] == node else symx.show(op[1])) for op in ops if op[0] == "<<"]
+                out["then" if v else "else"] = seq
+                out["types"] = sorted({op[2][1] for op in ops if len(op) > 2})
+            else:
+                out["k_update"] = symx.show(newk)[:60]
+        return out
+    fs = fold_facts([([(nslice(t), v) for (t, v) in o.conds], nslice(o.field(this, "m_k"))) for o in i_outs if o.field(this, "m_k") != K], K, "step")
+    fs["path_len"] = step["m_path_len"]
+    adv = {symx.show(o.field(this, "m_i")) for o in i_outs if o.field(this, "m_k") != K}
+    # ---- batch twin
+    r_outs = [o for o in explore(root_twin, params=pbind(root_twin, [CONTROL, K])) if o.status == "ret"]
+    pairs = []
+    ft = {}
+    for o in r_outs:
+        r = nslice(o.ret)
+        if isinstance(r, tuple) and r[0] == "ap" and r[1] == "loopvar" and len(r) == 5:
+            key, newk, old = r[2], r[3], r[4]
+            if old != K:
+                raise AnalysisBroken("R05.1: ComputeTaprootMerkleRoot does not start the fold from the leaf hash")
+            if isinstance(key, tuple) and key[0] == "ap" and key[1] == "while" and isinstance(key[2], tuple) and key[2][:3] == ("ap", "<", ("it", 0)):
+                ft["path_len"] = key[2][3]
+            conds = [(nslice(c02sub(t)), v) for (t, v) in o.conds]
+            pairs.append((conds, c02sub(newk)))
+    ft.update(fold_facts(pairs, K, "twin"))
     for key, what in (("hasher", "branch hasher"), ("cmp", "ordering predicate operands"), ("then", "operands streamed when k < node"), ("else", "operands streamed otherwise"),
                       ("slice", "control-block slice of path node i"), ("path_len", "path length"), ("k_update", "k := hash of the branch")):
         ctx.site()
         a, b = fs.get(key), ft.get(key)
-        ctx.inst(a is not None and a == b, "R05.1", "fold:" + key, it.loc(fs["node"]) if "node" in fs else it.loc(), "%s: %s" % (what, a),
-                 "%s differs: step-wise %s, batch twin %s" % (what, a, b))
-    spec = {"cmp": ["k.begin()", "k.end()", "node.begin()", "node.end()"], "then": ["k", "node"], "else": ["node", "k"], "slice": ("control", (33, 32), 32)}
+        sa = symx.show(a) if isinstance(a, tuple) and a and a[0] in ("slice", "ap", "lin", "a", "c") else a
+        sb = symx.show(b) if isinstance(b, tuple) and b and b[0] in ("slice", "ap", "lin", "a", "c") else b
+        ctx.inst(a is not None and a == b, "R05.1", "fold:" + key, it.loc(), "%s: %s" % (what, sa),
+                 "%s differs: step-wise %s, batch twin %s" % (what, sa, sb))
+    ctx.inst(adv == {symx.show(("ap", "++", I_))} or adv == {symx.show(symx.lin_add(I_, C(1)))}, "R05.1", "fold:advance", it.loc(), "each fold step advances the path index by one",
+             "a fold step leaves the path index as %s" % sorted(adv))
+    node_spec = ("slice", CONTROL, symx.lin_add(symx.lin_scale(I_, 32), C(33)), C(32))
+    spec = {"cmp": (symx.show(K), symx.show(node_spec)), "then": ["k", "node"], "else": ["node", "k"], "slice": node_spec, "hasher": "HASHER_TAPBRANCH", "k_update": "GetSHA256",
+            "path_len": ("ap", "/", symx.lin_add(("ap", "m:size", CONTROL), C(-33)), C(32))}
     for key, want in spec.items():
-        ctx.inst(ft.get(key) == want, "R05.1", "fold-spec:" + key, root_twin.loc(), "twin %s == BIP341 (%s)" % (key, want), "batch twin %s is %s, BIP341 says %s" % (key, ft.get(key), want))
+        got = ft.get(key)
+        ctx.inst(got == want, "R05.1", "fold-spec:" + key, root_twin.loc(), "twin %s == BIP341" % key,
+                 "batch twin %s is %s, BIP341 says %s" % (key, symx.show(got) if isinstance(got, tuple) and got and isinstance(got[0], str) and got[0] in ("slice", "ap", "lin") else got,
+                                                         symx.show(want) if isinstance(want, tuple) and want[0] in ("slice", "ap", "lin") else want))
+    # ---- leaf stream: the twin's parameters are bound to the arguments of its call in VerifyWitnessProgram
+    calls = [(f, n) for f in fb.funcs.values() for n in f.nodes() if n["k"] == "call" and n.get("cid") == leaf_twin.id and len(n["args"]) == 2]
+    if not calls:
+        raise AnalysisBroken("R05.1: no call of ComputeTapleafHash found")
+    cf_, cn_ = calls[0]
+    try:
+        a0 = X.eval_expr(cf_, cn_["args"][0])
+    except symx.Unsupported as e:
+        raise AnalysisBroken("R05.1: leaf version argument: %s" % e)
+    atoms = {x for x in symx.subterms(a0) if isinstance(x, tuple) and x and x[0] == "a"}
+    if len(atoms) != 1:
+        raise AnalysisBroken("R05.1: the leaf version passed to ComputeTapleafHash is %s" % symx.show(a0))
+    a0 = c02sub(a0, list(atoms)[0], CONTROL)
+    l_outs = [o for o in explore(leaf_twin, params=pbind(leaf_twin, [a0, SCRIPT])) if o.status == "ret"]
+    twin_leaf = {nslice(o.ret) for o in l_outs}
+    want_leaf = ("ap", "m:GetSHA256", symx.stream(("a", "HASHER_TAPLEAF"), (("ap", "&", ("ap", "[]", CONTROL, C(0)), C(0xfe)), "unsigned char"), (SCRIPT, "CScript")))
+    ctx.site(2)
+    ctx.inst(twin_leaf == {step["m_k"]}, "R05.1", "leaf-stream", ctor.loc(), "leaf hash = %s" % symx.show(step["m_k"]),
+             "step-wise leaf hash is %s; the batch twin computes %s" % (symx.show(step["m_k"]), sorted(symx.show(x) for x in twin_leaf)))
+    ctx.inst(twin_leaf == {want_leaf}, "R05.1", "leaf-stream-spec", leaf_twin.loc(), "twin leaf stream is TapLeaf(leaf version byte, script) as in BIP341",
+             "the batch twin's leaf hash is %s; BIP341 defines %s" % (sorted(symx.show(x) for x in twin_leaf), symx.show(want_leaf)))
     # ---- keys and final check
-    def key_slices(func):
-        out = {}
-        roots = func.all_roots()
-        for r in roots:
-            for n in walk(r):
-                pass
-        # constructor initialisers (step) / local declarations (twin)
-        for ini in func.d.get("inits", []):
-            if ini.get("field") in ("m_p", "m_q") and ini.get("e") is not None:
-                out[norm(ini["field"])] = byte_slice(first_sized_arg(ini["e"]))
-        for n in func.nodes():
-            if n["k"] == "decl":
-                for d in n["decls"]:
-                    if d["n"] in ("p", "q") and d.get("init") is not None:
-                        out[d["n"]] = byte_slice(first_sized_arg(d["init"]))
-        return out
-    ks, kt = key_slices(ctor), key_slices(ver_twin)
-    for k in ("p", "q"):
+    v_outs = [o for o in explore(ver_twin, params=pbind(ver_twin, [CONTROL, PROGRAM, TLH])) if o.status == "ret"]
+    tw_checks = {tuple(nslice(t) for t in e.terms) for o in v_outs for e in o.events if e.kind == "mcall" and e.name == "CheckTapTweak"}
+    heap2 = dict(heap)
+    heap2[(this, "m_p")] = step["m_p"]
+    heap2[(this, "m_q")] = step["m_q"]
+    i2 = [o for o in explore(it, this=this, heap=heap2) if o.status == "ret"]
+    st_checks = {tuple(nslice(t) for t in e.terms) for o in i2 for e in o.events if e.kind == "mcall" and e.name == "CheckTapTweak"}
+    if len(tw_checks) != 1:
+        raise AnalysisBroken("R05.1: the batch twin VerifyTaprootCommitment has %d distinct CheckTapTweak calls" % len(tw_checks))
+    tq, tp, troot, tpar = list(tw_checks)[0]
+    sq = sp_ = spar = None
+    if len(st_checks) == 1:
+        sq, sp_, sk, spar = list(st_checks)[0]
+    else:
+        sk = None
+    for name, a, b in (("p", sp_, tp), ("q", sq, tq)):
         ctx.site()
-        a, b = ks.get(k), kt.get(k)
-        # the output key is the whole program: offset 0, length unspecified
-        ctx.inst(a is not None and b is not None and a[0] == b[0] and a[1] == b[1] and (a[2] == b[2] or k == "q"), "R05.1", "key:" + k, ctor.loc(),
-                 "%s = bytes %s of %s" % (k, a[1:] if a else None, a[0] if a else None), "key %s: step-wise takes %s, batch twin takes %s" % (k, a, b))
-    ctx.inst(kt.get("p") == ("control", (1, 0), 32), "R05.1", "key-spec:p", ver_twin.loc(), "internal key = control[1..33)")
-
-    def final_check(func):
-        for n in func.nodes():
-            if n["k"] == "mcall" and n.get("n") == "CheckTapTweak":
-                return [norm(astq.estr(n.get("obj")))] + [norm(astq.estr(a)) for a in n["args"]]
-        return None
-    cs, ct = final_check(it), final_check(ver_twin)
-    if ct:
-        ct = [("k" if x == "merkle_root" else x) for x in ct]
+        ctx.inst(a is not None and a == b, "R05.1", "key:" + name, ctor.loc(), "%s = %s" % (name, symx.show(a)), "key %s: step-wise takes %s, batch twin takes %s" % (name, symx.show(a), symx.show(b)))
+    ctx.inst(tp == ("slice", CONTROL, C(1), C(32)) and tq == PROGRAM, "R05.1", "key-spec:p", ver_twin.loc(), "internal key = control[1..33), output key = the witness program",
+             "the batch twin takes p = %s, q = %s" % (symx.show(tp), symx.show(tq)))
+    root_ok = isinstance(troot, tuple) and troot[0] == "ap" and troot[1] == "ComputeTaprootMerkleRoot" and troot[2:] == (CONTROL, TLH)
     ctx.site()
-    ctx.inst(cs is not None and cs == ct, "R05.1", "final-check", it.loc(), "final check: %s.CheckTapTweak(%s)" % (cs[0] if cs else "?", ", ".join(cs[1:]) if cs else ""),
-             "final check differs: step-wise %s, batch twin %s" % (cs, ct))
-    ctx.inst(ct == ["q", "p", "k", "(control[0] & 1)"], "R05.1", "final-check-spec", ver_twin.loc(), "twin: q.CheckTapTweak(p, merkle_root, control[0] & 1)")
+    ctx.inst(len(st_checks) == 1 and sk == K and spar == tpar and sq == tq and sp_ == tp, "R05.1", "final-check", it.loc(),
+             "final check: q.CheckTapTweak(p, k, %s)" % symx.show(spar),
+             "final check differs: step-wise %s, batch twin %s" % (sorted([symx.show(x) for x in c] for c in st_checks), [symx.show(x) for x in list(tw_checks)[0]]))
+    ctx.inst(root_ok and tpar == ("ap", "&", ("ap", "[]", CONTROL, C(0)), C(1)), "R05.1", "final-check-spec", ver_twin.loc(), "twin: q.CheckTapTweak(p, merkle_root(control, leaf hash), control[0] & 1)")
     # the result decides Done / Failed
-    rets = [n for n in it.nodes() if n["k"] == "return" and n.get("e") is not None and n["e"].get("k") == "cond"]
-    ok_ret = any(astq.estr(r["e"]["then"]).endswith("Done") and astq.estr(r["e"]["else"]).endswith("Failed") and astq.estr(r["e"]["cond"]) == "res" for r in rets)
-    ctx.inst(ok_ret, "R05.1", "result-decides-state", it.loc(), "Iterate returns Done iff the tweak check succeeded, Failed otherwise")
+    st_enum = [e for e in fb.enums if e["name"].endswith("TaprootCommitmentEnv::State") or e["name"].endswith("State") and any(c["n"] == "Failed" for c in e["consts"])]
+    if not st_enum:
+        raise AnalysisBroken("R05.1: enum TaprootCommitmentEnv::State not found")
+    ev_ = {c["n"]: c["v"] for c in st_enum[0]["consts"]}
+    ok_ret = True
+    nfin = 0
+    for o in i2:
+        chk = [(t, v) for (t, v) in o.conds if isinstance(t, tuple) and t[0] == "ap" and t[1] == "m:CheckTapTweak"]
+        if chk:
+            nfin += 1
+            if o.ret != C(ev_["Done"] if chk[-1][1] else ev_["Failed"]):
+                ok_ret = False
+        elif any(e.name == "CheckTapTweak" for e in o.events):
+            ok_ret = False
+    ctx.inst(ok_ret and nfin >= 2, "R05.1", "result-decides-state", it.loc(), "Iterate returns Done iff the tweak check succeeded, Failed otherwise")
 
     # ---- R05.2
     cons = {"TAPROOT_CONTROL_BASE_SIZE": 33, "TAPROOT_CONTROL_NODE_SIZE": 32, "TAPROOT_CONTROL_MAX_NODE_COUNT": 128, "TAPROOT_CONTROL_MAX_SIZE": 33 + 32 * 128,
@@ -343,6 +459,15 @@ def run(ctx, anchors=None):
              "CheckTapTweak %s: a control block with the wrong parity bit is accepted" % ("does not call secp256k1_xonly_pubkey_tweak_add_check" if not call else "does not pass `parity` to the libsecp check"))
     rets = [n for n in ctt.nodes() if n["k"] == "return"]
     ctx.inst(bool(call) and any(S.contains(r, call[0]) for r in rets), "R05.4", "tweak-check-result-returned", ctt.loc(), "the libsecp verdict is the return value")
+
+
+def c02sub(t, a=("it", 0), b=("a", "i")):
+    """replace term a by b everywhere"""
+    if t == a:
+        return b
+    if isinstance(t, tuple):
+        return tuple(c02sub(x, a, b) for x in t)
+    return t
 
 
 def first_sized_arg(e):
